@@ -428,3 +428,50 @@ def run_scenario(repo, ns, scen):
     except Exception as e:  # noqa
         out["error"] = type(e).__name__ + ": " + (str(e).splitlines()[0][:200] if str(e) else "")
     return out
+
+
+# ---------------------------------------------------------------- documented defaults of the public API
+# Frozen from the EPRSocket docstrings (the documented behaviour when an argument is not given); NOT read from the
+# signatures under test.  Keyed by parameter name: every public create/recv method documents the same default.
+DOCUMENTED_DEFAULTS = {
+    "number": "1", "post_routine": "None", "sequential": "False", "expect_phi_plus": "True",
+    "min_fidelity_all_at_end": "None", "max_tries": "None", "tp": "EPRType.K",
+    "time_unit": "TimeUnit.MICRO_SECONDS", "max_time": "0",
+    "basis_local": "None", "basis_remote": "None", "rotations_local": "(0, 0, 0)", "rotations_remote": "(0, 0, 0)",
+    "random_basis_local": "None", "random_basis_remote": "None",
+}
+
+
+def signature_defaults_report():
+    """Compare the default of every parameter of every public create*/recv* method of EPRSocket with the
+    documented one.  Returns (public method names, list of differences 'method.param: ...')."""
+    import enum
+    import inspect
+
+    from netqasm.sdk.epr_socket import EPRSocket
+
+    diffs, methods = [], []
+    for name, fn in inspect.getmembers(EPRSocket, predicate=callable):
+        if name.startswith("_") or not (name.startswith("create") or name.startswith("recv")):
+            continue
+        try:
+            params = inspect.signature(fn).parameters
+        except (TypeError, ValueError):
+            diffs.append(f"{name}: signature not inspectable")
+            continue
+        methods.append(name)
+        for pn, p in params.items():
+            if pn == "self":
+                continue
+            if pn not in DOCUMENTED_DEFAULTS:
+                diffs.append(f"{name}.{pn}: parameter without a documented default in the harness table")
+                continue
+            if p.default is inspect.Parameter.empty:
+                got = "<required>"
+            elif isinstance(p.default, enum.Enum):
+                got = f"{type(p.default).__name__}.{p.default.name}"
+            else:
+                got = repr(p.default)
+            if got != DOCUMENTED_DEFAULTS[pn]:
+                diffs.append(f"{name}.{pn}: default {got}, documented {DOCUMENTED_DEFAULTS[pn]}")
+    return methods, diffs
